@@ -85,6 +85,23 @@ DET = {
  "C19/r2-2": ("./check C19 quick", "certchain-certificate-commits-to-wrong-committee (needed one generator used for two chains)"),
  "C20/r2-1": ("./check C20 quick", "cadence-does-not-settle (needed a crowd: one up-to-date peer, then 40 that never have anything)"),
  "C20/r2-2": ("./check C20 quick", "poller-next-instance-not-store (needed certificates at the peers whose first also arrives locally during the request)"),
+ # ---- round 3
+ "C04/r3-1": ("./check C04 quick", "valid-chain-rejected:signers (certificate validation and consensus disagree on the scaled total; six equal members)"),
+ "C04/r3-2": ("./check C04 quick", "valid-chain-rejected:signed:commitments-changed"),
+ "C09/r3-1": ("./check C09 quick", "conc:subscriber-misses-latest (engine E2)"),
+ "C09/r3-2": ("./check C09 quick", "gap-accepted"),
+ "C10/r3-1": ("./check C10 quick", "crash-reopen-fails:put (real checkpoint frequency)"),
+ "C10/r3-2": ("./check C10 quick", "crash-leaves-datastore-neither-openable-nor-creatable (needed: CreateStore may refuse only where OpenStore finds a store)"),
+ "C11/r3-1": ("./check C11 quick", "conc:wal-operation-failed-under-concurrency (needed an engine-E2 scenario for the WAL: purge vs append+rotate vs read)"),
+ "C11/r3-2": ("./check C11 quick", "purge-removed-live-file"),
+ "C12/r3-1": ("./check C12 quick", "self-equivocation-on-wire (history b710Pa b712Pa b710Pb; needed rounds 0..3 of one slot in the alphabet)"),
+ "C12/r3-2": ("./check C12 quick", "published-before-recorded (history g R h; needed a WAL file past its rotation size); also C11 acknowledged-entry-lost"),
+ "C13/r3-1": ("./check C13 quick", "two-stage-differs-from-one-shot:other/other (needed partial messages that still carry their chain)"),
+ "C13/r3-2": ("./check C13 quick", "verdict-depends-on-history:partial-key"),
+ "C16/r3-1": ("./check C16 quick", "server-wrong-power-table (empty store)"),
+ "C16/r3-2": ("./check C16 quick", "poller-misclassifies-honest-peer (needed: two or more certificates gained locally while the request is in flight)"),
+ "C17/r3-1": ("./check C17 quick", "imported-store-does-not-keep-working"),
+ "C17/r3-2": ("./check C17 quick", "malformed-snapshot-accepted:dropped-block"),
 }
 for d in sorted(glob.glob('/verif/seeded/C*/*')):
     if not os.path.isdir(d): continue
